@@ -301,7 +301,10 @@ def shared_sizer_mismatch(tree, state):
 
 def classify_c10(case, detail):
     """D33: TypeError pinned by the repository's own tests for a non-collection argument of
-    extend()/slice assignment and for composite extend() with elements of another class"""
+    extend()/slice assignment and for composite extend() with elements of another class;
+    D77: one prophy.array / prophy.bytes type object used by fields of two structs whose sizers differ in width"""
+    if case.get('directed') == 'D77':
+        return 'D77'
     op = detail.get('op') or {}
     if detail.get('exc') == 'TypeError' and op.get('op') in ('extend', 'setSlice') and not detail.get('state_changed'):
         return 'D33'
@@ -351,6 +354,51 @@ def shift_declarations(chk, root):
             chk.correspondence_mismatch('Accept.pyRt = the runtime creates the class', casej, created, a)
 
 
+def shared_container_types(chk):
+    """hand-written descriptors: one container type object shared by two structs (an alias), sizers of different widths;
+    every reachable message must still be encodable and no array may be refused below its own sizer's range (known finding D77)"""
+    import prophy
+    from harness.checks.pycodec import handwritten
+    for kind, elem in (('bytes', 'prophy.bytes(bound="len")'), ('array', 'prophy.array(prophy.u8, bound="len")')):
+        import prophy as P
+        shared = eval(elem, {'prophy': P})   # noqa: S307
+        base = prophy.with_metaclass(prophy.struct_generator, prophy.struct)
+        Small = type(base)('Small', (base,), {'_descriptor': [('len', prophy.u8), ('data', shared)]})
+        Big = type(base)('Big', (base,), {'_descriptor': [('len', prophy.u32), ('data', shared)]})
+        for cls, n, fits in ((Small, 300, False), (Big, 300, True), (Small, 255, True)):
+            casej = {'schema': 'hand-written: D = %s; Small{u8 len; D data}; Big{u32 len; D data}' % elem, 'type': cls.__name__,
+                     'operation': 'assign / extend %d elements' % n, 'directed': 'D77'}
+            chk.count(('shared', kind, cls.__name__, n), True)
+            chk.bump('directed:shared container type')
+            x = cls()
+            try:
+                if kind == 'bytes':
+                    x.data = b'x' * n
+                else:
+                    x.data.extend([1] * n)
+                accepted = True
+            except prophy.ProphyError:
+                accepted = False
+            if accepted != fits:
+                chk.property_violation(casej, {'what': '%d elements were %s although the sizer of %s counts up to %d' % (
+                    n, 'accepted' if accepted else 'refused', cls.__name__, 255 if cls is Small else 2 ** 32 - 1)}, classify_c10)
+            if accepted:
+                try:
+                    x.encode('<')
+                except Exception as ex:  # noqa
+                    chk.property_violation(casej, {'what': 'a reachable message does not encode: %s' % py_impl.exc_class(ex)}, classify_c10)
+    # a bool is an int for the API: the stored value must read and print as the integer (fixed: D97)
+    base = prophy.with_metaclass(prophy.struct_generator, prophy.struct)
+    B = type(base)('B', (base,), {'_descriptor': [('a', prophy.u8), ('n', prophy.u8), ('v', prophy.array(prophy.u16, bound='n'))]})
+    x = B()
+    x.a = True
+    x.v[:] = [True, 2]
+    chk.count(('bool',), True)
+    if str(x) != 'a: 1\nv: 1\nv: 2\n' or type(x.a) is bool:
+        chk.property_violation({'schema': 'hand-written B{u8 a; u8 n; u16 v<@n>}', 'operation': 'a = True; v[:] = [True, 2]'},
+                               {'what': 'a bool assigned to an integer field is not stored as the integer', 'str': str(x)})
+
+
 def run_c10(tier):
     chk = core.Check('C10', tier)
     chk.rule = ('schemas without floating-point fields; per message type several histories of public API operations generated against the '
@@ -362,6 +410,7 @@ def run_c10(tier):
     corpus = Corpus(chk, chk.scale(40, 400), dict(n_decls=8, floats=False, shifts=True))
     try:
         shift_declarations(chk, corpus.workdir)
+        shared_container_types(chk)
         reqs = corpus.deft_requests()
         nd = len(reqs)
         rows = []
